@@ -1,4 +1,5 @@
 import RedactVerif.Props.L2
+import RedactVerif.Props.FactsClassify
 /-
 C05 — exactly the unsafe arguments are enveloped; declared-safe data stays visible.
 
